@@ -577,6 +577,9 @@ def e1_trees(ctx):
     # those separately); patterns outside the reference's domain are counted, not compared
     unsupported = set(common.run_cases(ctx, "sup", HEADER, sup_checks, chunk=600))
     ctx.count("ref_unsupported_patterns", len(unsupported))
+    # how many of the generated tree patterns lie in the fragment F1 of C17_compile_regex_correct_partial
+    not_f1 = common.run_cases(ctx, "f1", HEADER, [f"f1 {coq_str(c.pattern)} {coq_subs(c.subs)}" for c in cases], chunk=600)
+    ctx.count("tree_patterns_in_F1", len(cases) - len(not_f1))
     rchecks, rdescr = [], []
     for i, c in enumerate(cases):
         if i in unsupported or not (classes_plain(c.pattern, c.subs) and _good_names(c.pattern)):
